@@ -83,5 +83,5 @@ package engine
 //@   modifies frame rulerun, g.returnResult
 //@   nopanic
 //@   loop 0 invariant forks: forked(wg) == nfork && nfork == itercount && added(wg) == len(KC0.RuleEntities)
-//@   loop 0 invariant err: (len(eMsg) > 0 <==> anyfail)
+//@   loop 0 invariant err: (len(eMsg) > 0 <==> anyfail) && (isnil(eMsg) || fresh(arr(eMsg)))
 //@   loop 0 invariant res: fresh(g.returnResult) && dom(g.returnResult) == R && g.returnResult != nil
